@@ -16,6 +16,7 @@ pub mod c11;
 pub mod c12;
 pub mod c13;
 pub mod streams;
+pub mod c14;
 pub mod c15;
 pub mod c16;
 pub mod c17;
@@ -49,6 +50,7 @@ pub fn dispatch(prop: &str, cfg: &Cfg) -> Option<Report> {
         "C11" => c11::run(cfg),
         "C12" => c12::run(cfg),
         "C13" => c13::run(cfg),
+        "C14" => c14::run(cfg),
         "C15" => c15::run(cfg),
         "C16" => c16::run(cfg),
         "C17" => c17::run(cfg),
